@@ -38,9 +38,11 @@ type Case struct {
 }
 
 type refResult struct {
-	selected map[string]bool // labels of selected nodes (targets and aliases)
-	skipped  int
-	err      bool
+	selected  map[string]bool // labels of selected nodes (targets and aliases)
+	skipped   int
+	err       bool
+	seeds     []string
+	ambiguous []string // aliases matched by a pattern whose aliased target fails the filters
 }
 
 func contains(xs []string, x string) bool {
@@ -115,12 +117,13 @@ func reference(c Case, aliasSeedsAlways bool) refResult {
 		if !patMatch(a.Label()) {
 			continue
 		}
-		if aliasSeedsAlways {
-			seeds = append(seeds, a.Label())
-			continue
-		}
 		if t := byLabel[c.Graph.Resolve(a.Label())]; t != nil && passes(t) && platformOK(t) {
 			seeds = append(seeds, a.Label())
+		} else {
+			res.ambiguous = append(res.ambiguous, a.Label())
+			if aliasSeedsAlways {
+				seeds = append(seeds, a.Label())
+			}
 		}
 	}
 	closure := c.Graph.Closure(seeds)
@@ -135,7 +138,20 @@ func reference(c Case, aliasSeedsAlways bool) refResult {
 		}
 	}
 	res.selected = closure
+	res.seeds = seeds
 	return res
+}
+
+// closureErr reports whether the closure of seeds contains a platform-incompatible target.
+func closureErr(c Case, seeds []string) (map[string]bool, bool) {
+	byLabel := c.Graph.TargetByLabel()
+	cl := c.Graph.Closure(seeds)
+	for l := range cl {
+		if t := byLabel[l]; t != nil && !(c.AllPlatforms || len(t.Platforms) == 0 || contains(t.Platforms, c.OS+"/"+c.Arch)) {
+			return cl, true
+		}
+	}
+	return cl, false
 }
 
 func sortedKeys(m map[string]bool) []string {
@@ -213,8 +229,23 @@ func run(c Case) (pbt.Result, error) {
 	}
 	okLoose, why := matches(loose)
 	okStrict := false
-	if ambiguous {
-		okStrict, _ = matches(strict)
+	if ambiguous && !okLoose {
+		// Accept exactly the outcomes that treat some subset A' of the ambiguous
+		// aliases as seeds: S == closure(strict seeds + A') with A' = S ∩ ambiguous.
+		switch {
+		case selErr != nil:
+			okStrict = loose.err // an error is right if some choice of A' runs into a platform mismatch
+		default:
+			seeds := append([]string{}, strict.seeds...)
+			for _, a := range strict.ambiguous {
+				if got[a] {
+					seeds = append(seeds, a)
+				}
+			}
+			cl, cerr := closureErr(c, seeds)
+			alt := refResult{selected: cl, err: cerr, skipped: strict.skipped}
+			okStrict, _ = matches(alt)
+		}
 	}
 	if !okLoose && !okStrict {
 		sig := "selection-differs"
